@@ -14,7 +14,7 @@ The solver decides, per joint path, that the two results are equal for every arg
 """
 PROPERTY = 'C04'
 LEVEL = 'translation_validation'
-BUDGET_S = {'quick': 900, 'thorough': 7200}
+BUDGET_S = {'quick': 3600, 'thorough': 14400}
 
 from . import tv, corpus
 
